@@ -507,6 +507,7 @@ class Repo:
         for n in it:
             if isinstance(n, ast.Call):
                 out.append((n, self.call_target(func.module, func, n)))
+        out.sort(key=lambda x: (x[0].lineno, x[0].col_offset))
         return out
 
     # ------------------------------------------------------- constant folding
